@@ -355,6 +355,11 @@ def rule_r25_bulk_selection(ctx, prog, rule="R25"):
            "sub-view after rebasing by exactly its start, aligned slices) is proved at both recursive calls" % len(res) if not bad else
            "not established on the path through blocks %s (case %s): %s" % (bad[0]["blocks"], bad[0]["case"], bad[0]["why"]),
            what="bulk selection postcondition")
+    tb = [d for ok_, d in bp.term_obs if not ok_]
+    ctx.ob(rule, "bulk/recursion-on-strictly-shorter-view", bool(bp.term_obs) and not tb, b.where(),
+           "each of the %d recursive calls met on the paths receives a sub-view provably shorter than the current view: the recursion "
+           "terminates" % len(bp.term_obs) if bp.term_obs and not tb else "a recursive call is not on a provably shorter sub-view: %s" % (tb[:1] or "no recursive call analysed"),
+           what="recursion may not terminate")
     # the wrapper establishes the precondition's shape: whole view, private copy of the index list, one value slot per index
     w = prog.find("sort::get_many_from_sorted_mut_unchecked")
     calls = [(bb, t) for bb, t in w.calls() if prog.local_callee_body(t) is not None and prog.local_callee_body(t).key == b.key]
